@@ -1,2 +1,5 @@
 pub mod c17;
 pub mod grouping;
+pub mod c06;
+pub mod c13;
+pub mod c14;
